@@ -238,6 +238,30 @@ def r3(ctx):
         if t[0] == 'call' and re.search(r'HashSet::(intersection|difference)$', t[1]) and len(t[2]) == 2:
             return t[1].rsplit('::', 1)[-1], t[2][0], t[2][1]
         return None
+    def card(body, t, depth=0):
+        """(op, A, B) when the number `t` is |A ∩ B| ('intersection') or |A − B| ('difference'): the count of a set view, the count of
+        `A.iter().filter(|x| [!]B.contains(x))`, or the complement within A: |A| − |A ∩ B| = |A − B| and |A| − |A − B| = |A ∩ B|"""
+        from analysis.seq import seq_of_iter, ITEM
+        c = core(t)
+        if c[0] == 'call' and re.search(r'::count$', c[1]) and len(c[2]) == 1:
+            so = setop(c[2][0])
+            if so is not None:
+                return so
+            segs = seq_of_iter(ctx.facts, body, peel(t)[2][0] if peel(t)[0] == 'call' else c[2][0])
+            if segs is not None and len(segs) == 1 and segs[0].kind == 'each' and core(segs[0].elem) == ITEM and len(segs[0].conds) == 1:
+                cond, pol = segs[0].conds[0]
+                cc = core(cond)
+                while cc[0] == 'un' and cc[1] == 'Not':
+                    cc, pol = core(cc[2]), not pol
+                if cc[0] == 'call' and cc[1].endswith('HashSet::contains') and len(cc[2]) == 2 and core(cc[2][1]) == ITEM:
+                    return ('intersection' if pol else 'difference'), core(segs[0].src), core(cc[2][0])
+            return None
+        if c[0] == 'bin' and c[1] == 'Sub' and depth < 2:
+            a = core(c[2])
+            inner = card(body, c[3], depth + 1)
+            if inner is not None and a[0] == 'call' and a[1].endswith('HashSet::len') and nosite(core(a[2][0])) == nosite(inner[1]):
+                return ('difference' if inner[0] == 'intersection' else 'intersection'), inner[1], inner[2]
+        return None
     w = ctx.body(M + '_whitespace_correction_tp_fp_fn')
     GT = Call('_whitespace_ops_to_set', Call('whitespace::operations', ('arg', 1, ANY), ('arg', 3, ANY), ANY), ('arg', 4, ANY))
     PR = Call('_whitespace_ops_to_set', Call('whitespace::operations', ('arg', 1, ANY), ('arg', 2, ANY), ANY), ('arg', 4, ANY))
@@ -248,7 +272,7 @@ def r3(ctx):
     want = {1: ('tp', 'intersection', GT, PR, True), 2: ('fp', 'difference', PR, GT, False), 3: ('fn', 'difference', GT, PR, False)}
     for i, (nm, op, A, B, symm) in want.items():
         c = core(tup[i])
-        so = setop(c[2][0]) if c[0] == 'call' and c[1].endswith('Iterator::count') else None
+        so = card(w, tup[i])
         if so is None and c[0] == 'call' and c[1].endswith('Vec::len') and core(c[2][0])[0] == 'call' and core(c[2][0])[1].endswith('_offset_operations'):
             # the length of the info list: _offset_operations yields exactly one entry per element of the set view it is given
             from analysis.seq import seq_of
@@ -292,7 +316,7 @@ def r3(ctx):
     want = {1: ('tp', 'intersection', MIS, RESTORED, True), 2: ('fp', 'difference', CHG, CORRECT, False), 3: ('fn', 'difference', MIS, RESTORED, False)}
     for i, (nm, op, A, B, symm) in want.items():
         c = core(tup[i])
-        so = setop(c[2][0]) if c[0] == 'call' and c[1].endswith('Iterator::count') else None
+        so = card(s, tup[i])
         ok = so is not None and so[0] == op and ((match(so[1], A) and match(so[2], B)) or (symm and match(so[1], B) and match(so[2], A)))
         ctx.require(ok, s, 'sp-set-op|' + nm, 'spelling %s: %s of the right sets (misspelled = edited_words(input,target).1, changed = '
                     'edited_words(input,predicted).0, restored / matching = projections of match_words(predicted,target), correct = _group_words(..))' % (nm, op),
